@@ -26,6 +26,10 @@ func runC19(c *Ctx) {
 	c19R2(c, "C19.R2")
 	c19R3(c, "C19.R3")
 	c19R4(c, "C19.R4")
+	// imported: one valve per user presupposes one record per user — lookup-or-create must be atomic
+	c.importing = "C15"
+	c15R1(c, "C15.R1")
+	c.importing = ""
 }
 
 func c19R1(c *Ctx, rule string) {
@@ -110,9 +114,10 @@ func c19R2(c *Ctx, rule string) {
 func c19R3(c *Ctx, rule string) {
 	c.Rule(rule, "one valve per user reaches every session: ActiveUser.valve stored only by the constructors; GetSession hands it to MakeSession; MakeSession keeps a non-nil valve; makeSwitchboard copies it; limited valve forwards waits with the same count", 6)
 	p := c.P
-	valveF := p.Field("internal/server", "ActiveUser", "valve")
-	sbValve := p.Field("internal/multiplex", "switchboard", "valve")
-	cfgValve := p.Field("internal/multiplex", "SessionConfig", "Valve")
+	valveT := modPath + "/internal/multiplex.Valve"
+	valveF := p.Field("internal/server", "ActiveUser", "valve", valveT)
+	sbValve := p.Field("internal/multiplex", "switchboard", "valve", valveT)
+	cfgValve := p.Field("internal/multiplex", "SessionConfig", "Valve", valveT)
 	if valveF == nil || sbValve == nil || cfgValve == nil {
 		c.Undecided(rule, "anchor ActiveUser.valve / switchboard.valve / SessionConfig.Valve", "-", "not found")
 		return
